@@ -136,8 +136,8 @@ Record thread := mkT {
   t_stack : list N;                  (* head = top *)
   t_kids : list (nat * bool);        (* child id i -> (thread, already waited); run.rs:135 *)
   t_poolk : bool;                    (* runs as a job of the pool: counted in active_count *)
-  t_inpool : bool;                   (* a pool task is among its ancestors-or-self
-                                        (ghost for the code as written; the flag the repair adds) *)
+  t_inpool : bool;                   (* a pool task is among its ancestors-or-self:
+                                        ThisThread::in_pool, run.rs:138, set at run.rs:1429 *)
   t_spec : res;                      (* ghost: sequential meaning of the body on its arguments *)
   t_st : status }.
 
@@ -155,7 +155,10 @@ Record state := mkS {
   act : nat;                         (* ThreadPool::active_count *)
   lck : option nat;                  (* holder of the Mutex around the pool; run.rs:1472 *)
   mx : nat;                          (* MAX_THREADS; run.rs:1467 *)
-  rep : bool }.                      (* false: the code as written; true: the proposed repair *)
+  rep : bool }.                      (* true: the code (since d34a231, run.rs:1427-1430: a pool called
+                                        from inside a pool task gets its own thread);
+                                        false: the admission rule before that fix (kept for the
+                                        *_refuted_pre records) *)
 
 Definition with_cs (th : thread) (c : code) (s : list N) :=
   mkT c s (t_kids th) (t_poolk th) (t_inpool th) (t_spec th) (t_st th).
@@ -219,8 +222,8 @@ Definition step (st : state) (t : nat) : option state :=
         | Fork p k b =>
           if length s <? k then Some (fin st t th None)          (* run.rs:1415 *)
           else if negb p || (rep st && t_inpool th) then
-            (* spawn: a new OS thread starts at once (run.rs:1489-1498);
-               repaired rule: a pool called from inside a pool task does the same *)
+            (* spawn: a new OS thread starts at once (run.rs:1499-1508);
+               run.rs:1430: `_pool && !in_pool` -- a pool called from inside a pool task does the same *)
             Some (add_child st t th c k b false Running (qu st) (lck st))
           else
             match lck st with
